@@ -137,8 +137,8 @@ def build_harness(timeout=600):
         return rc == 0, out
 
 
-def run_harness(pid, n, seed, extra=(), timeout=1800):
-    env = dict(GOENV, VERIF_SEED=str(seed))
+def run_harness(pid, n, seed, extra=(), timeout=1800, tier="quick"):
+    env = dict(GOENV, VERIF_SEED=str(seed), VERIF_TIER=tier, VERIF_HARNESS_DIR=HARNESS)
     p = subprocess.run([os.path.join(BUILD, "hpverif"), pid, str(n)] + list(extra), env=env,
                        stdout=subprocess.PIPE, stderr=subprocess.PIPE, timeout=timeout, text=True)
     cases = []
